@@ -30,6 +30,9 @@ RULE = (
 RULE += (
     ' Parsed mode (half of the cases; a quarter of those through the documented loader) also compares the default of every parsed property with the one written in the document (nested literals included).'
 )
+RULE += (
+    ' Round 9: a default declared by the ONLY member of a composition (no keyword of its own next to it) counts as declared by the property (one hop at a time, not into classes).'
+)
 ASSUMPTIONS = [
     "conversion of a value is observed through the property's own element called alone (differential inside the library, as the statement is phrased)",
     "'no value' = the NotPassed marker for element instances (Element.__call__ has no parameter default) and Cls() for classes",
@@ -309,6 +312,15 @@ def predicate(case, stats):
             node = rp["element"] if "kind" in rp["element"] else idx_r[rp["element"]["ref"]]
             kw_eff = R.flat_class(node, idx_r)[0] if node.get("base") and node["kind"] == "Object" else node.get("kw", {})
             want = kw_eff.get("default", NotPassed())
+            hop = node
+            while (isinstance(want, NotPassed) and hop.get("kind") in ("AnyOf", "OneOf", "AllOf")
+                   and len(hop.get("elements") or []) == 1 and not hop.get("kw")):
+                # {"allOf": [S]} says what S says: a default declared by the only member is declared by the property
+                # (ref6 reads `declares a default` through compositions in the same way)
+                hop = hop["elements"][0] if "kind" in hop["elements"][0] else idx_r[hop["elements"][0]["ref"]]
+                if hop.get("kind") == "Object":
+                    break  # a class keeps its own default; the wrapper stays (AllOf(Cls))
+                want = hop.get("kw", {}).get("default", NotPassed())
             have_d = getattr(props[name].element, "default", NotPassed())
             # (a property schema WITHOUT a default of its own may still end up with one: a one-member composition
             # collapses to its member, default included - nothing in the statement forbids that)
